@@ -108,10 +108,6 @@ func main() {
 				continue
 			}
 			changed := pi.instrument(f)
-			// site tables + dump registration go into the first file of the package
-			if fi == 0 && (len(pi.tickNames) > 0 || len(pi.yieldNames) > 0 || len(pi.mapNames) > 0 || len(dumpVars) > 0) {
-				changed = true
-			}
 			_ = fi
 			if !changed {
 				continue
@@ -342,7 +338,7 @@ func classify(pkgs []*packages.Package) map[*types.Var]bool {
 											}
 										}
 										// pointer-receiver method defined outside the module on a global: assume it writes
-										if callee.Pkg() != nil && !strings.HasPrefix(callee.Pkg().Path(), "github.com/tsawler/tabula") {
+										if callee.Pkg() != nil && !strings.HasPrefix(callee.Pkg().Path(), "github.com/tsawler/tabula") && !safeTypes[sig.Recv().Type().String()] {
 											mark(p, rootIdent(info, fun.X), "extern-ptr-method "+callee.Name(), x.Pos())
 										}
 									}
